@@ -20,6 +20,8 @@ class C08(Prop):
     rule = "one record per (tableau, input form) with all 2^N regions; forms: index list, tuple, numpy bool mask"
 
     def models(self):
+        # L2: transcribed GF(2) elimination (z2rank, z2inv) against its definition on all matrices up to 3x3 (4x4 thorough)
+        self.model("MC_Z2", "MC_Z2_t.cfg" if self.tier == "thorough" else "MC_Z2_q.cfg", name="z2_linear_algebra", workers=4, timeout=3000)
         for n in (1, 2):
             self.model("MC_StabSem", "MC_StabSem_c08_n%d.cfg" % n, name="stabsem_n%d" % n, expect_distinct=(7 if n == 1 else 91))
         self.maps = {}
